@@ -1829,6 +1829,8 @@ class Interp:
                     and T.strip_opt(v.ty).a[0] in T.strip_opt(ty).a[0].mro():
                 nt = T.OPT(T.strip_opt(ty)) if v.ty.k == "opt" else T.strip_opt(ty)
                 v = SV(v.t, nt, v.c)
+                if not self.st.binder_asms:
+                    self.st.assume_wt(v)  # A7: the object really is of the declared (sub)class
                 self.st.log.append(f"annotation downcast {T.strip_opt(v.ty).a[0].name} at line {node.lineno} of {fr.module.relpath} trusted (A7)")
         elif isinstance(node.target, ast.Name) and isinstance(v, SV) and v.ty.k == "none":
             ty = T.parse_ann(node.annotation, fr.module, fr.cls)
